@@ -248,18 +248,27 @@ func pickKind(r *core.Rand, cmdHeavy bool) string {
 func genSnap(r *core.Rand, bigRun bool) *SnapArg {
 	a := &SnapArg{Table: []string{"t", "regatta-test", "a-rather-long-table-name-0123456789"}[r.Intn(3)]}
 	var n int
-	switch r.Pick([]int{5, 40, 45, 10}) {
+	many := false
+	switch r.Pick([]int{5, 40, 45, 10, 4}) {
 	case 0:
 		n = 0
 	case 1:
 		n = r.Range(1, 5)
 	case 2:
 		n = r.Range(6, 40)
-	default:
+	case 3:
 		n = r.Range(41, 200)
+	default:
+		// a few thousand small records: the file crosses several 64 KiB blocks of the snappy framing with
+		// record length prefixes falling on every offset relative to the block boundaries
+		n = r.Range(900, 4000)
+		many = true
 	}
-	anyCmds := r.Chance(0.25)
+	anyCmds := r.Chance(0.25) && !many
 	valStyle := r.Pick([]int{5, 3, 2}) // tiny / mixed / medium
+	if many {
+		valStyle = 3
+	}
 	bigLeft := 0
 	if bigRun {
 		bigLeft = r.Range(1, 3)
@@ -277,6 +286,9 @@ func genSnap(r *core.Rand, bigRun bool) *SnapArg {
 				c.ValKind = "random" // stays large in the snappy-compressed file
 			}
 			bigLeft--
+		case valStyle == 3:
+			c.KeyLen = r.Range(1, 24)
+			c.ValLen = r.Range(0, 140)
 		case valStyle == 0:
 			c.ValLen = r.Range(0, 32)
 		case valStyle == 1:
@@ -534,7 +546,7 @@ func Gen(r *core.Rand, tier string) core.Schedule {
 				if comp == "" {
 					comp = compNames[r.Intn(3)]
 				}
-				st := Step{Op: "c.par", Comp: comp}
+				st := Step{Op: "c.par", Comp: comp, N: int(r.Uint64() >> 40)} // N: which sink writes yield
 				k := r.Range(2, 5)
 				for i := 0; i < k; i++ {
 					st.Par = append(st.Par, Payload{Seed: r.Uint64() >> 40, Len: genPayloadLen(r, false), Kind: payloadKinds[r.Intn(len(payloadKinds))]})
